@@ -177,8 +177,30 @@ PROPS = {
                 "with; the same values on all integer arguments at once (total = max supply); on the block's Amount in the "
                 "canonical token; and the upper end of the family as Amount in a token of maximal supply "
                 "(total = max = TokenMaxSupplyBig) held by the sender, for every method; Mint / Burn / UpdateToken also on a "
-                "mintable token of maximal supply. The random boundary generators of all C09 streams draw from the same "
-                "family. Degenerate-epoch scenario (compressed calendar, two histories): reward epochs of the pillar, "
+                "mintable token of maximal supply. Aligned multiples (arguments that are divided or narrowed BEFORE they are "
+                "range-checked): for every integer argument, and for the block's Amount of methods that take one, "
+                "(j + k*2^b)*u for the units u the contracts divide by - 1, 100, the fee / percentage totals, 10^8, hour, "
+                "day, staking and phase unit, momentums per hour / epoch, the epoch, the reward tick (values of the tree "
+                "under test) - whose quotient falls back to a valid j when narrowed to b = 8, 16, 31, 32, 63, 64 bits, as "
+                "far as the argument's type holds them; quick: the units that divide the argument's canonical valid value, "
+                "j = 1 and canonical/u (u = 1: canonical + k*2^b), k = -1, 1, 2 at 8 bits and 1 above; thorough: every "
+                "unit, j also 0, 2, the number of staking periods, the length of the weights table, k = -1, 1, 2 at every width; "
+                "(1 + 2^b)*10^8 for b = 32, 63, 64 as Amount in the token of maximal supply. The random boundary "
+                "generators of the autoreceive stream draw from the same families. Proofs: a call that carries a "
+                "cryptographic proof (swap.RetrieveAssets and pillar.RegisterLegacy: secp256k1 signature of a legacy key "
+                "over the caller's address, checked at send time; bridge.UnwrapToken / Halt / UpdateWrapRequest / "
+                "ChangeTssECDSAPubKey: signature of the TSS key over arguments and nonce, checked in the receive; "
+                "htlc.Unlock: preimage) is generated with a REAL proof: the semantic and boundary generators and the sweep "
+                "make the proof again for the changed sender / arguments (legacy key drawn from: the genesis key, the "
+                "second known key without entry, fresh random keys, fresh keys used before), and the scenario "
+                "proof-states (two histories: all sporks, and the regime seed mod 3) walks the key / entry behind each "
+                "proof through absent (fresh key, known key without entry, unknown id) / present / consumed (assets "
+                "retrieved = entry with zero amounts, all legacy slots used = entry deleted, request redeemed / revoked, "
+                "nonce used, TSS key rotated, entry unlocked / reclaimed / expired, proxy unlock denied) / foreign (valid "
+                "proof by another key, for another address, by the replaced TSS key) / malformed (key material of the "
+                "right length that is no curve point), the consuming call and its repetition also queued in ONE momentum "
+                "from one account; coverage counters `proofs <method> <state> -> applied | refunded (reason) | refused "
+                "when sent`. Degenerate-epoch scenario (compressed calendar, two histories): reward epochs of the pillar, "
                 "sentinel, stake, liquidity and accelerator contracts are reached - with the producer's Update calls - "
                 "while a pillar's only backer owns no ZNN, weighted and weightless backers side by side, a pillar without "
                 "backers, a backer with one base unit, nobody delegating (total weight 0), a registered pillar that never "
